@@ -266,7 +266,7 @@ theorem quote4_type {p : Bytes} {l4 : Nat} {q : Quote4} (h : quote4 p l4 = some 
     u8 p l4 = some q.icmpType := by
   unfold quote4 at h
   split at h
-  · rename_i ty co c0 id s d h1 _ _ _ _ _
+  · rename_i ty co c0 id pr s d h1 _ _ _ _ _ _
     simp only [Option.some.injEq] at h
     subst h; exact h1
   · simp at h
@@ -283,7 +283,7 @@ theorem icmp4TE_inv {c : IcmpCfg} {s : List Sent} {t : Nat} {a p : Bytes}
   split at h
   · rename_i ety eid eseq h1 h2 h3
     simp only [Bool.and_eq_true, decide_eq_true_eq, Bool.or_eq_true] at h
-    obtain ⟨⟨⟨⟨⟨⟨⟨⟨⟨⟨⟨_, _⟩, _⟩, h11⟩, _⟩, hqd⟩, _⟩, hid⟩, _⟩, _⟩, _⟩, _⟩ := h
+    obtain ⟨⟨⟨⟨⟨⟨⟨⟨⟨⟨⟨⟨_, _⟩, _⟩, h11⟩, _⟩, hqd⟩, _⟩, _⟩, hid⟩, _⟩, _⟩, _⟩, _⟩ := h
     exact ⟨v, q, hv, hq, h11, hqd, by rw [h2, hid]⟩
   · simp at h
 
@@ -337,7 +337,7 @@ theorem udp4_inv {c : UdpCfg} {s : List Sent} {t : Nat} {a : Bytes} {d : Bool} {
     (h : genuineUdp4 c s t a d p = true) :
     ∃ v q sp dp, view4 p = some v ∧ quote4 p v.l4 = some q ∧ portsAt p q.qL4 = some (sp, dp) ∧
       q.qDst = c.target ∧ dp = c.tport ∧ (c.loosen = true ∨ (q.qSrc = c.localA ∧ sp = c.lport)) ∧
-      ∃ x ∈ s, x.ttl = t ∧ x.id = q.qId := by
+      (∃ x ∈ s, x.ttl = t ∧ x.id = q.qId) ∧ q.qProto = 17 := by
   unfold genuineUdp4 at h
   split at h; · simp at h
   rename_i v hv
@@ -346,15 +346,15 @@ theorem udp4_inv {c : UdpCfg} {s : List Sent} {t : Nat} {a : Bytes} {d : Bool} {
   split at h; · simp at h
   rename_i sp dp hp
   simp only [Bool.and_eq_true, decide_eq_true_eq, Bool.or_eq_true, List.any_eq_true, and_assoc] at h
-  obtain ⟨_, _, _, _, hqd, hdp, hl, hx, _⟩ := h
-  exact ⟨v, q, sp, dp, hv, hq, hp, hqd, hdp, hl, hx⟩
+  obtain ⟨_, _, _, _, hqp, hqd, hdp, hl, hx, _⟩ := h
+  exact ⟨v, q, sp, dp, hv, hq, hp, hqd, hdp, hl, hx, hqp⟩
 
 theorem tcpQuoted_inv {c : TcpCfg} {s : List Sent} {t : Nat} {a p : Bytes}
     (h : genuineTcpQuoted c s t a p = true) :
     ∃ v q sp dp sq, view4 p = some v ∧ quote4 p v.l4 = some q ∧ portsAt p q.qL4 = some (sp, dp) ∧
       u32 p (q.qL4 + 4) = some sq ∧ v.outerProto = 1 ∧
       q.qDst = c.target ∧ dp = c.tport ∧ (c.loosen = true ∨ (q.qSrc = c.localA ∧ sp = c.lport)) ∧
-      ∃ x ∈ s, x.ttl = t ∧ x.id = q.qId ∧ x.seq = sq := by
+      (∃ x ∈ s, x.ttl = t ∧ x.id = q.qId ∧ x.seq = sq) ∧ q.qProto = 6 := by
   unfold genuineTcpQuoted at h
   split at h; · simp at h
   rename_i v hv
@@ -363,8 +363,8 @@ theorem tcpQuoted_inv {c : TcpCfg} {s : List Sent} {t : Nat} {a p : Bytes}
   split at h
   · rename_i sp dp sq hp hs
     simp only [Bool.and_eq_true, decide_eq_true_eq, Bool.or_eq_true, List.any_eq_true, and_assoc] at h
-    obtain ⟨_, hpr, _, _, _, hqd, hdp, hl, hx⟩ := h
-    exact ⟨v, q, sp, dp, sq, hv, hq, hp, hs, hpr, hqd, hdp, hl, hx⟩
+    obtain ⟨_, hpr, _, _, _, hqp, hqd, hdp, hl, hx⟩ := h
+    exact ⟨v, q, sp, dp, sq, hv, hq, hp, hs, hpr, hqd, hdp, hl, hx, hqp⟩
   · simp at h
 
 theorem tcpDirect_inv {c : TcpCfg} {s : List Sent} {t : Nat} {a p : Bytes}
@@ -386,7 +386,7 @@ theorem sackQuoted_inv {c : SackCfg} {s : List Sent} {t : Nat} {a : Bytes} {d : 
     ∃ v q sp dp sq, view4 p = some v ∧ quote4 p v.l4 = some q ∧ portsAt p q.qL4 = some (sp, dp) ∧
       u32 p (q.qL4 + 4) = some sq ∧ v.outerProto = 1 ∧
       q.qDst = c.target ∧ dp = c.tport ∧ (c.loosen = true ∨ (q.qSrc = c.localA ∧ sp = c.lport)) ∧
-      (sq + 4294967296 - c.isn % 4294967296) % 4294967296 = t ∧ c.min ≤ t ∧ t ≤ c.max := by
+      (sq + 4294967296 - c.isn % 4294967296) % 4294967296 = t ∧ c.min ≤ t ∧ t ≤ c.max ∧ q.qProto = 6 := by
   unfold genuineSackQuoted at h
   split at h; · simp at h
   rename_i v hv
@@ -395,8 +395,8 @@ theorem sackQuoted_inv {c : SackCfg} {s : List Sent} {t : Nat} {a : Bytes} {d : 
   split at h
   · rename_i sp dp sq hp hs
     simp only [Bool.and_eq_true, decide_eq_true_eq, Bool.or_eq_true, and_assoc] at h
-    obtain ⟨_, hpr, _, _, _, hqd, hdp, hl, hrel, _, hmin, hmax, _⟩ := h
-    exact ⟨v, q, sp, dp, sq, hv, hq, hp, hs, hpr, hqd, hdp, hl, hrel, hmin, hmax⟩
+    obtain ⟨_, hpr, _, _, _, hqp, hqd, hdp, hl, hrel, _, hmin, hmax, _⟩ := h
+    exact ⟨v, q, sp, dp, sq, hv, hq, hp, hs, hpr, hqd, hdp, hl, hrel, hmin, hmax, hqp⟩
   · simp at h
 
 theorem sackDirect_inv {c : SackCfg} {s : List Sent} {t : Nat} {a p : Bytes}
@@ -466,8 +466,8 @@ theorem isolation_tcp {A B : TcpCfg} {sA sB : List Sent} {t t' : Nat} {a a' : By
     unfold genuineTcp at hA hB
     cases d <;> cases d' <;> simp only [Bool.false_eq_true, if_false, if_true] at hA hB
     · -- both quoted
-      obtain ⟨v, q, sp, dp, sq, hv, hq, hp, hs, _, hqd, hdp, hl, x, hx, _, hxi, hxs⟩ := tcpQuoted_inv hA
-      obtain ⟨v', q', sp', dp', sq', hv', hq', hp', hs', _, hqd', hdp', hl', y, hy, _, hyi, hys⟩ := tcpQuoted_inv hB
+      obtain ⟨v, q, sp, dp, sq, hv, hq, hp, hs, _, hqd, hdp, hl, ⟨x, hx, _, hxi, hxs⟩, _⟩ := tcpQuoted_inv hA
+      obtain ⟨v', q', sp', dp', sq', hv', hq', hp', hs', _, hqd', hdp', hl', ⟨y, hy, _, hyi, hys⟩, _⟩ := tcpQuoted_inv hB
       rw [hv] at hv'; cases hv'
       rw [hq] at hq'; cases hq'
       rw [hp] at hp'
@@ -511,8 +511,8 @@ theorem isolation_sack {A B : SackCfg} {sA sB : List Sent} {t t' : Nat} {a a' : 
     unfold genuineSack at hA hB
     simp only [Bool.or_eq_true, Bool.and_eq_true] at hA hB
     rcases hA with hA | ⟨_, hA⟩ <;> rcases hB with hB | ⟨_, hB⟩
-    · obtain ⟨v, q, sp, dp, sq, hv, hq, hp, hs, _, hqd, hdp, hl, hrel, hmin, hmax⟩ := sackQuoted_inv hA
-      obtain ⟨v', q', sp', dp', sq', hv', hq', hp', hs', _, hqd', hdp', hl', hrel', hmin', hmax'⟩ := sackQuoted_inv hB
+    · obtain ⟨v, q, sp, dp, sq, hv, hq, hp, hs, _, hqd, hdp, hl, hrel, hmin, hmax, _⟩ := sackQuoted_inv hA
+      obtain ⟨v', q', sp', dp', sq', hv', hq', hp', hs', _, hqd', hdp', hl', hrel', hmin', hmax', _⟩ := sackQuoted_inv hB
       rw [hv] at hv'; cases hv'
       rw [hq] at hq'; cases hq'
       rw [hp] at hp'
@@ -546,28 +546,24 @@ theorem isolation_sack {A B : SackCfg} {sA sB : List Sent} {t t' : Nat} {a a' : 
       · exact hd (hdst.symm.trans hdst')
       · exact hd (hdp.symm.trans hdp')
 
-/-- cross-protocol: a packet genuine for a TCP-SYN run is not genuine for a UDP run -/
+/-- cross-protocol: a packet genuine for a TCP-SYN run is not genuine for a UDP run — whatever the
+    addresses, ports and identifiers of the two runs are: the quoted protocol field is part of the
+    flow (6 for the one, 17 for the other).  Before the fix for F11 this needed the hypothesis
+    `FlowsDistinctUdpTcp` (no numerically equal flow with aligned IP ids). -/
 theorem isolation_udp4_tcp {U : UdpCfg} {C : TcpCfg} {sU sC : List Sent} {t t' : Nat} {a a' : Bytes} {d d' : Bool} {p : Bytes}
-    (hd : FlowsDistinctUdpTcp U C sU sC) (hC : genuineTcp C sC t a d p = true) :
+    (hC : genuineTcp C sC t a d p = true) :
     genuineUdp4 U sU t' a' d' p = false := by
   cases hU : genuineUdp4 U sU t' a' d' p with
   | false => rfl
   | true =>
     exfalso
-    obtain ⟨v', q', sp', dp', hv', hq', hp', hqd', hdp', hl', y, hy, _, hyi⟩ := udp4_inv hU
+    obtain ⟨v', q', sp', dp', hv', hq', hp', _, _, _, _, h17⟩ := udp4_inv hU
     unfold genuineTcp at hC
     cases d <;> simp only [Bool.false_eq_true, if_false, if_true] at hC
-    · obtain ⟨v, q, sp, dp, sq, hv, hq, hp, hs, _, hqd, hdp, hl, x, hx, _, hxi, hxs⟩ := tcpQuoted_inv hC
+    · obtain ⟨v, q, sp, dp, sq, hv, hq, _, _, _, _, _, _, _, h6⟩ := tcpQuoted_inv hC
       rw [hv] at hv'; cases hv'
       rw [hq] at hq'; cases hq'
-      rw [hp] at hp'
-      obtain ⟨rfl, rfl⟩ := some_pair_inj hp'
-      rcases hd with (hd | hd) | ⟨la, lb, hd | hd⟩ | hids
-      · exact hd (hqd'.symm.trans hqd)
-      · exact hd (hdp'.symm.trans hdp)
-      · exact hd ((strict_of_not_loosen la hl').1.symm.trans (strict_of_not_loosen lb hl).1)
-      · exact hd ((strict_of_not_loosen la hl').2.symm.trans (strict_of_not_loosen lb hl).2)
-      · exact hids y hy x hx (hyi.trans hxi.symm)
+      omega
     · -- a direct TCP reply has outer protocol 6, a UDP-genuine packet is ICMP
       obtain ⟨v, sp, dp, hv, _, h6, _⟩ := tcpDirect_inv hC
       rw [hv] at hv'; cases hv'
@@ -577,6 +573,29 @@ theorem isolation_udp4_tcp {U : UdpCfg} {C : TcpCfg} {sU sC : List Sent} {t t' :
       rw [h6] at hU
       exact absurd hU.2.1 (by decide)
 
+/-- cross-protocol: a packet genuine for a SACK run is not genuine for a UDP run -/
+theorem isolation_udp4_sack {U : UdpCfg} {C : SackCfg} {sU sC : List Sent} {t t' : Nat} {a a' : Bytes} {d d' : Bool} {p : Bytes}
+    (hC : genuineSack C sC t a d p = true) :
+    genuineUdp4 U sU t' a' d' p = false := by
+  cases hU : genuineUdp4 U sU t' a' d' p with
+  | false => rfl
+  | true =>
+    exfalso
+    obtain ⟨v', q', sp', dp', hv', hq', hp', _, _, _, _, h17⟩ := udp4_inv hU
+    unfold genuineSack at hC
+    simp only [Bool.or_eq_true, Bool.and_eq_true] at hC
+    rcases hC with hC | ⟨_, hC⟩
+    · obtain ⟨v, q, sp, dp, sq, hv, hq, _, _, _, _, _, _, _, _, _, h6⟩ := sackQuoted_inv hC
+      rw [hv] at hv'; cases hv'
+      rw [hq] at hq'; cases hq'
+      omega
+    · obtain ⟨v, sp, dp, hv, _, h6, _⟩ := sackDirect_inv hC
+      rw [hv] at hv'; cases hv'
+      unfold genuineUdp4 at hU
+      simp only [hv, hq', hp'] at hU
+      simp only [Bool.and_eq_true, decide_eq_true_eq, and_assoc] at hU
+      rw [h6] at hU
+      exact absurd hU.2.1 (by decide)
 
 
 /-! # Part 3: from genuineness to the matchers (via `*_sound`) and to the engines -/
@@ -632,14 +651,14 @@ theorem not_both_sack {sA sB : SackSt} {pkt : Bytes} {t : Nat} {a : Bytes} {d : 
   rw [isolation_sack hd gA] at gB; cases gB
 
 theorem not_both_udp4_tcp {sU : UdpSt} {sC : TcpSt} {pkt : Bytes} {t : Nat} {a : Bytes} {d : Bool} {tm : Nat}
-    (hd : FlowsDistinctUdpTcp sU.cfg sC.cfg sU.sent sC.sent) (hiU : UdpInv sU) (h4U : sU.cfg.target.length = 4)
+    (hiU : UdpInv sU) (h4U : sU.cfg.target.length = 4)
     (hv4 : ∃ b0, u8 (pkt.take bufSize) 0 = some b0 ∧ b0 / 16 = 4)
     (hC : tcpRecv sC pkt = .accept t a d tm) (t' : Nat) (a' : Bytes) (d' : Bool) (tm' : Nat) :
     udpRecv sU pkt ≠ .accept t' a' d' tm' := by
   intro hU
   have gC := (tcp_sound hC hv4).1
   have gU := (udp4_sound hiU h4U hU hv4).1
-  rw [isolation_udp4_tcp hd gC] at gU; cases gU
+  rw [isolation_udp4_tcp gC] at gU; cases gU
 
 /-! ### … it is classified `retry` there (not fatal, not NotSupported) -/
 
